@@ -25,14 +25,14 @@ def run(ctx, R):
     declare(R, {**delivery.RULES, **idioms.RULES}, RULES, FLOORS)
     M = ctx.model
     rl, dl = M.cls('streamz.core', 'rate_limit'), M.cls('streamz.core', 'delay')
-    idioms.check_reserve_algebra(ctx, R)
-    delivery.check_timedelta_total(ctx, R)
-    delivery.check_atomic_rmw(ctx, R, [(rl, f) for f in rl.methods.values()])
-    delivery.check_emit_sig(ctx, R, [rl, dl])
-    delivery.check_pass_value(ctx, R, [rl, dl])
-    delivery.check_single_consumer(ctx, R, [dl])
-    delivery.check_serial_drain(ctx, R, [dl])
-    delivery.check_fifo_end(ctx, R, [dl])
+    R.run(idioms.check_reserve_algebra, ctx, R)
+    R.run(delivery.check_timedelta_total, ctx, R)
+    R.run(delivery.check_atomic_rmw, ctx, R, [(rl, f) for f in rl.methods.values()])
+    R.run(delivery.check_emit_sig, ctx, R, [rl, dl])
+    R.run(delivery.check_pass_value, ctx, R, [rl, dl])
+    R.run(delivery.check_single_consumer, ctx, R, [dl])
+    R.run(delivery.check_serial_drain, ctx, R, [dl])
+    R.run(delivery.check_fifo_end, ctx, R, [dl])
 
 
 META['level'] += ' Durations are converted with total_seconds() (TIMEDELTA-TOTAL).'
